@@ -1345,6 +1345,15 @@ func conv(i *interpreter, t_dst, t_src types.Type, x value) value {
 			// To at least preserve type-safety, we'll
 			// just return the zero value of the
 			// destination type.
+			//
+			// gosx: a pointer that went through unsafe.Pointer
+			// unchanged (atomic.Pointer[T]: *T -> unsafe.Pointer
+			// -> *T) is given back as it was.
+			if p, ok := x.(unsafe.Pointer); ok && p != nil {
+				if _, isPtr := t_dst.Underlying().(*types.Pointer); isPtr {
+					return (*value)(p)
+				}
+			}
 			return zero(t_dst)
 		}
 
